@@ -76,13 +76,39 @@ def is_true(a):
     return a is True
 
 
+class _Timeout(Exception):
+    pass
+
+
+def _alarm(_signum, _frame):
+    raise _Timeout()
+
+
+# after this many calls of the implementation ran into the time limit the remaining calls are not
+# attempted any more (they are reported as skipped): a hanging implementation must not hang the check
+_MAX_TIMEOUTS = 4
+_timeouts = [0]
+
+
 def call(fn, *args, **kw):
+    """call the implementation; a call that does not return within 15 s is reported, never waited for"""
+    import signal
+    if _timeouts[0] >= _MAX_TIMEOUTS:
+        return None, 'Timeout(skipped)'
+    old = signal.signal(signal.SIGALRM, _alarm)
+    signal.setitimer(signal.ITIMER_REAL, 15)
     try:
         return fn(*args, **kw), None
+    except _Timeout:
+        _timeouts[0] += 1
+        return None, 'Timeout(15s)'
     except SystemExit:
         return None, 'SystemExit'
     except Exception as e:  # noqa: BLE001
         return None, type(e).__name__
+    finally:
+        signal.setitimer(signal.ITIMER_REAL, 0)
+        signal.signal(signal.SIGALRM, old)
 
 
 # ---------------------------------------------------------------- alias tables
